@@ -16,8 +16,8 @@ RvOK(p) == IF E.rv = "" THEN pc'[p] # "idle"
            ELSE pc'[p] = "idle" /\ (IF out'[3] = "ERR" THEN Cls(E.rv) # "OK" ELSE Cls(E.rv) = out'[3])
 Vals == <<E.vals[1], E.vals[2], E.vals[3]>>
 
-TReset == IsEv("Reset") /\ disk' = [gen |-> 1, attrs |-> Zero, e |-> FALSE, x |-> TRUE, ino |-> 1, lk |-> TRUE]
-          /\ objW' = 0 /\ txLock' = 0 /\ cache' = [p \in Procs |-> [gen |-> 1, attrs |-> Zero, wino |-> 0]]
+TReset == IsEv("Reset") /\ disk' = [gen |-> 10, attrs |-> Zero, e |-> FALSE, x |-> TRUE, ino |-> 1, lk |-> TRUE]
+          /\ objW' = 0 /\ txLock' = 0 /\ cache' = [p \in Procs |-> [gen |-> 10, attrs |-> Zero, wino |-> 0]]
           /\ pc' = [p \in Procs |-> "idle"] /\ kind' = [p \in Procs |-> "none"] /\ has' = [p \in Procs |-> TRUE]
           /\ todo' = [p \in Procs |-> NCalls] /\ done' = [p \in Procs |-> 0]
           /\ blind' = [p \in Procs |-> FALSE]
